@@ -148,54 +148,61 @@ Inductive next_result : Type :=
 | NEnd                      (* *batch = NULL, CARQUET_ERROR_END_OF_DATA *)
 | NBatch (b : batch A).
 
+(** carquet_batch_reader_next, first part: "Check if we need to move to next row group".
+    [false] = no row group left (END_OF_DATA) *)
+Definition advance (m : io_mode) (f : mfile) (proj : list nat) (st : bstate) : res (bstate * bool) :=
+  let need_next :=
+    (bs_rg st <? 0) || match bs_readers st with cr0 :: _ => negb (has_next cr0) | [] => true end in
+  if need_next then
+    let rg := bs_rg st + 1 in
+    if rg >=? Z.of_nat (length f) then Ok ({| bs_rg := rg; bs_readers := bs_readers st |}, false)
+    else match nth_error f (Z.to_nat rg) with
+         | None => Err E_COLUMN_NOT_FOUND
+         | Some chunks =>
+             match open_readers m chunks proj with
+             | Ok rs => Ok ({| bs_rg := rg; bs_readers := rs |}, true)
+             | Err c => Err c | Fault ft => Fault ft
+             end
+         end
+  else Ok (st, true).
+
+(** carquet_batch_reader_next, second part: allocate the batch, rows_to_read from projected column 0, prefetch,
+    read every column, num_rows from column 0 *)
+Definition produce (m : io_mode) (batch_size : Z) (st1 : bstate) : res (bstate * next_result) :=
+  match bs_readers st1 with
+  | [] => Fault NullDeref                   (* col_readers[0] of an empty projection *)
+  | cr0 :: _ =>
+    let rem := remaining cr0 in
+    let rows_to_read := if rem >? batch_size then batch_size else rem in
+    if rows_to_read =? 0 then
+      (* empty row group: a batch with zero rows, columns zero-initialised *)
+      Ok (st1, NBatch {| b_num_rows := 0;
+                         b_cols := map (fun _ => {| bc_num_values := 0; bc_bitmap := []; bc_packed := [] |}) (bs_readers st1) |})
+    else
+      match prefetch (bs_readers st1) with
+      | Err c => Err c | Fault ft => Fault ft
+      | Ok rs1 =>
+        match read_columns m rs1 rows_to_read with
+        | Err c => Err c | Fault ft => Fault ft
+        | Ok (rs2, ds) =>
+            match all_some ds with
+            | None => Err E_DECODE
+            | Some cols =>
+                let nr := match cols with d :: _ => cd_num d | [] => 0 end in
+                Ok ({| bs_rg := bs_rg st1; bs_readers := rs2 |},
+                    NBatch {| b_num_rows := nr; b_cols := map observe_col cols |})
+            end
+        end
+      end
+  end.
+
 (** carquet_batch_reader_next *)
 Definition batch_next (m : io_mode) (f : mfile) (proj : list nat) (batch_size : Z) (st : bstate)
   : res (bstate * next_result) :=
-  let need_next :=
-    (bs_rg st <? 0) || match bs_readers st with cr0 :: _ => negb (has_next cr0) | [] => true end in
-  let adv :=
-    if need_next then
-      let rg := bs_rg st + 1 in
-      if rg >=? Z.of_nat (length f) then Ok ({| bs_rg := rg; bs_readers := bs_readers st |}, false)
-      else match nth_error f (Z.to_nat rg) with
-           | None => Err E_COLUMN_NOT_FOUND
-           | Some chunks =>
-               match open_readers m chunks proj with
-               | Ok rs => Ok ({| bs_rg := rg; bs_readers := rs |}, true)
-               | Err c => Err c | Fault ft => Fault ft
-               end
-           end
-    else Ok (st, true) in
-  match adv with
+  match advance m f proj st with
   | Err c => Err c | Fault ft => Fault ft
   | Ok (st1, false) => Ok (st1, NEnd)
-  | Ok (st1, true) =>
-    match bs_readers st1 with
-    | [] => Fault NullDeref                   (* col_readers[0] of an empty projection *)
-    | cr0 :: _ =>
-      let rem := remaining cr0 in
-      let rows_to_read := if rem >? batch_size then batch_size else rem in
-      if rows_to_read =? 0 then
-        (* empty row group: a batch with zero rows, columns zero-initialised *)
-        Ok (st1, NBatch {| b_num_rows := 0;
-                           b_cols := map (fun _ => {| bc_num_values := 0; bc_bitmap := []; bc_packed := [] |}) (bs_readers st1) |})
-      else
-        match prefetch (bs_readers st1) with
-        | Err c => Err c | Fault ft => Fault ft
-        | Ok rs1 =>
-          match read_columns m rs1 rows_to_read with
-          | Err c => Err c | Fault ft => Fault ft
-          | Ok (rs2, ds) =>
-              match all_some ds with
-              | None => Err E_DECODE
-              | Some cols =>
-                  let nr := match cols with d :: _ => cd_num d | [] => 0 end in
-                  Ok ({| bs_rg := bs_rg st1; bs_readers := rs2 |},
-                      NBatch {| b_num_rows := nr; b_cols := map observe_col cols |})
-              end
-          end
-        end
-    end
+  | Ok (st1, true) => produce m batch_size st1
   end.
 
 (** the consumer loop: next until END_OF_DATA.  Every call either moves to the next row group or delivers at least
